@@ -33,91 +33,34 @@ func runC10(p *Program, e *Engine, r *Result, tier string) {
 		return
 	}
 	ro := a.Ro
-	rd := df.Reader
-	w := a.walk(rd)
 	n := 0
-	for _, v := range w.Visits {
-		call, ok := v.Instr.(*ssa.Call)
-		if !ok {
-			continue
-		}
-		cal := v.Ctx.calleeOf(&call.Call)
-		if cal == nil || !ro.isSendError(cal) {
-			continue
-		}
-		n++
-		arg := call.Call.Args[len(call.Call.Args)-1]
-		org := origins(v.Ctx, arg, 0)
-		pos := a.P.instrPos(call)
-		where := shortFn(call.Parent())
-		// handler result?
-		if ex, isEx := stripConv(arg).(*ssa.Extract); isEx && ex.Tuple == ssa.Value(df.HandlerCall) && v.Ctx.Parent == nil {
-			c10HandlerErrors(a, df, ex.Index)
-			continue
-		}
-		classify := func() (string, bool, string) {
-			has := func(s string) bool {
-				for _, o := range org {
-					if o == s {
-						return true
-					}
-				}
-				return false
-			}
-			switch {
-			case has(ro.ErrOverflow.Name()) || has("wraps:"+ro.ErrOverflow.Name()):
-				for _, o := range org {
-					if o != ro.ErrOverflow.Name() && o != "wraps:"+ro.ErrOverflow.Name() && o != "call:fmt.Errorf" {
-						return "overflow", false, "ErrEventOverflow mixed with other origins: " + strings.Join(org, "|")
-					}
-				}
-				g, bad := v.Cond.everyConj(func(c Conj) bool { return c.has(func(l Lit) bool { return isBitLit(l, "IN_Q_OVERFLOW", a) }) })
-				if !g {
-					return "overflow", false, "ErrEventOverflow is reported without IN_Q_OVERFLOW under " + stripIDs(bad.String())
-				}
-				return "overflow", true, "ErrEventOverflow (errors.Is-compatible) under IN_Q_OVERFLOW"
-			case len(org) == 1 && (org[0] == "call:(*os.File).Read" || strings.HasPrefix(org[0], "extract:") && strings.Contains(org[0], "(*os.File).Read(")):
-				g, _ := v.Cond.everyConj(func(c Conj) bool {
-					return c.has(func(l Lit) bool { return l.A.Kind == AkErrIs && l.Neg && strings.HasSuffix(l.A.K, "os.ErrClosed") })
-				})
-				if !g {
-					return "read-error", false, "the read error is reported without excluding os.ErrClosed (Close would surface as an error)"
-				}
-				return "read-error", true, "error returned by the read on the inotify file, os.ErrClosed excluded"
-			default:
-				// constructed errors: allowed only under the short-read test
-				constructed := true
-				for _, o := range org {
-					if o != "call:errors.New" && o != "EOF" && o != "call:fmt.Errorf" {
-						constructed = false
-					}
-				}
-				if constructed {
-					g, _ := v.Cond.everyConj(func(c Conj) bool {
-						return c.has(func(l Lit) bool {
-							return l.A.Kind == AkCmp && !l.Neg && l.A.Op == "<" && strings.Contains(l.A.Subj, "(*os.File).Read(") && strings.HasSuffix(l.A.Subj, "#0")
-						})
-					})
-					if g {
-						return "short-read", true, "error constructed under the short-read test"
-					}
-					return "constructed", false, "a freshly constructed error (" + strings.Join(org, "|") + ") is reported under " + stripIDs(v.Cond.String())
-				}
-				return "other", false, "argument originates from " + strings.Join(org, "|")
-			}
-		}
-		kind, ok2, wit := classify()
-		a.R.ob("C10.1", sprintf("error-send@%s(%s)", where, kind), "a value is put on Errors only for a genuine failure (read error, short read, kernel queue overflow, failed syscall)", pos, ok2, wit)
+	// every error-send call reachable from the reader (any depth) and from the API
+	type rootT struct {
+		fn  *ssa.Function
+		api bool
 	}
-	// API roots must not report errors at all in production configuration (they return them)
+	roots := []rootT{{df.Reader, false}}
 	for _, m := range ro.apiRoots() {
-		for _, v := range a.walk(m).Visits {
-			if call, ok := v.Instr.(*ssa.Call); ok {
-				if cal := v.Ctx.calleeOf(&call.Call); cal != nil && ro.isSendError(cal) {
-					n++
-					a.R.ob("C10.1", "error-send@API:"+m.Name(), "API calls return their errors; they do not put them on Errors", a.P.instrPos(call), false, "reached via "+v.Ctx.chain())
-				}
+		roots = append(roots, rootT{m, true})
+	}
+	for _, rt := range roots {
+		w := a.walk(rt.fn)
+		for _, v := range w.Visits {
+			call, ok := v.Instr.(*ssa.Call)
+			if !ok {
+				continue
 			}
+			cal := v.Ctx.calleeOf(&call.Call)
+			if cal == nil || !ro.isSendError(cal) {
+				continue
+			}
+			n++
+			if rt.api {
+				a.R.ob("C10.1", "error-send@API:"+rt.fn.Name(), "API calls return their errors; they do not put them on Errors", a.P.instrPos(call), false, "reached via "+v.Ctx.chain())
+				continue
+			}
+			arg := call.Call.Args[len(call.Call.Args)-1]
+			c10Classify(a, v, call, valueEdges(v.Ctx, arg, v.Cond))
 		}
 	}
 	if n == 0 {
@@ -126,112 +69,151 @@ func runC10(p *Program, e *Engine, r *Result, tier string) {
 	c01Overflow(a, df, "C10.2")
 }
 
-// c10HandlerErrors examines the non-nil sources of the handler's error result.
-func c10HandlerErrors(a *An, df *DecodeFacts, idx int) {
+// errIsExcludes: every conjunct of cond has a literal !errors.Is(x, target) whose x can be the value of edge e.
+func errIsExcludes(cond DNF, e ValEdge, target func(string) bool) bool {
+	g, _ := cond.everyConj(func(c Conj) bool {
+		return c.has(func(l Lit) bool {
+			if l.A.Kind != AkErrIs || !l.Neg || !target(stripIDs(l.A.K)) || l.A.Call == nil {
+				return false
+			}
+			// the tested value must be able to be this edge's value
+			for _, x := range valueEdges(l.A.Ctx, l.A.Call.Call.Args[0], dnfTrue()) {
+				if x.V == e.V {
+					return true
+				}
+			}
+			return false
+		})
+	})
+	return g
+}
+
+func c10Classify(a *An, site *Visit, call *ssa.Call, edges []ValEdge) {
 	ro := a.Ro
-	_, hv, hctx := handlerVisits(a, df)
-	if hctx == nil {
-		a.R.fail("handler not inlined")
-		return
-	}
-	// collect (value, condition) pairs for the returned error: walk phis with edge conditions (handler-local)
-	type src struct {
-		v    ssa.Value
-		cond DNF
-	}
-	var srcs []src
-	seen := map[ssa.Value]bool{}
-	var rec func(v ssa.Value, cond DNF)
-	rec = func(v ssa.Value, cond DNF) {
-		if rv, rc := hctx.resolve(v); rc == hctx {
-			v = rv
-		}
-		if ph, ok := v.(*ssa.Phi); ok {
-			if seen[ph] {
-				return
-			}
-			seen[ph] = true
-			for i, e := range ph.Edges {
-				ec := phiEdgeCond(hctx, ph, i)
-				rec(e, ec)
-			}
-			return
-		}
-		srcs = append(srcs, src{v, cond})
-	}
-	nRet := 0
-	for _, v := range hv {
-		r, ok := v.Instr.(*ssa.Return)
-		if !ok || v.Ctx != hctx || idx >= len(r.Results) {
+	pos := a.P.instrPos(call)
+	where := shortFn(call.Parent())
+	einval, _ := unixConst(a, "EINVAL")
+	nonNil := 0
+	seen := map[string]bool{}
+	for _, e := range edges {
+		if isNilConst(e.V) {
 			continue
 		}
-		nRet++
-		rec(r.Results[idx], v.Local)
-	}
-	if nRet == 0 {
-		a.R.fail("handler has no return (vacuous)")
-	}
-	einval := "golang.org/x/sys/unix.EINVAL"
-	nNonNil := 0
-	for _, s := range srcs {
-		if isNilConst(s.v) {
-			continue
+		nonNil++
+		kind, ok, wit := "other", false, ""
+		callOf := func(v ssa.Value) (*ssa.Call, int) {
+			switch x := v.(type) {
+			case *ssa.Extract:
+				if c, isC := x.Tuple.(*ssa.Call); isC {
+					return c, x.Index
+				}
+			case *ssa.Call:
+				return x, 0
+			}
+			return nil, 0
 		}
-		nNonNil++
-		org := origins(hctx, s.v, 0)
-		vp := hctx.path(s.v)
-		excl := func(target string) bool {
-			g, _ := s.cond.everyConj(func(c Conj) bool {
+		src, _ := callOf(e.V)
+		srcName := ""
+		if src != nil {
+			if cal := e.Ctx.calleeOf(&src.Call); cal != nil {
+				srcName = fullName(cal)
+			}
+		}
+		isGlobal := func(v ssa.Value, g *ssa.Global) bool {
+			if u, isU := v.(*ssa.UnOp); isU {
+				return u.X == ssa.Value(g)
+			}
+			return false
+		}
+		switch {
+		case isGlobal(e.V, ro.ErrOverflow) || srcName == "fmt.Errorf" && wrapsOnly(e.Ctx, src, ro.ErrOverflow.Name()):
+			kind = "overflow"
+			g, bad := e.Cond.everyConj(func(c Conj) bool { return c.has(func(l Lit) bool { return bitsWithin(l, a, "IN_Q_OVERFLOW") }) })
+			ok = g
+			wit = "ErrEventOverflow (errors.Is-compatible) under IN_Q_OVERFLOW"
+			if !g {
+				wit = "ErrEventOverflow is reported without IN_Q_OVERFLOW under " + stripIDs(bad.String())
+			}
+		case srcName == "(*os.File).Read" || srcName == "golang.org/x/sys/unix.Read":
+			kind = "read-error"
+			ok = errIsExcludes(e.Cond, e, func(k string) bool { return strings.HasSuffix(k, "os.ErrClosed") })
+			wit = "error returned by the read on the inotify file, os.ErrClosed excluded"
+			if !ok {
+				wit = "the read error is reported without excluding os.ErrClosed (Close would surface as an error)"
+			}
+		case srcName == "errors.New" || srcName == "fmt.Errorf" && len(wrappedOperands(e.Ctx, src)) == 0 || isIOEOF(e.V):
+			kind = "constructed"
+			g, _ := e.Cond.everyConj(func(c Conj) bool {
 				return c.has(func(l Lit) bool {
-					return l.A.Kind == AkErrIs && l.Neg && l.A.Subj == vp && strings.HasSuffix(stripIDs(l.A.K), target)
+					return l.A.Kind == AkCmp && !l.Neg && (l.A.Op == "<" || l.A.Op == "==" || l.A.Op == "<=") && strings.Contains(l.A.Subj, ".Read(") && strings.HasSuffix(stripIDs(l.A.Subj), "#0")
 				})
 			})
-			return g
+			ok = g
+			kind = "short-read"
+			wit = "error constructed under the short-read test"
+			if !g {
+				kind = "constructed"
+				wit = "a freshly constructed error (" + srcName + ", no %w) is reported on the event path under " + tail(stripIDs(e.Cond.String()), 300) + ": it hides its cause from errors.Is, so filters for benign outcomes cannot apply"
+			}
+		case srcName == "golang.org/x/sys/unix.InotifyRmWatch":
+			kind = "inotify_rm_watch"
+			ok = errIsExcludes(e.Cond, e, func(k string) bool { return strings.HasSuffix(k, "unix.EINVAL") || k == sprintf("c:%d", einval) })
+			wit = "failure of inotify_rm_watch, EINVAL (watch already gone in the kernel) excluded"
+			if !ok {
+				wit = "an inotify_rm_watch failure is forwarded without excluding EINVAL (the kernel had already dropped the watch: ordinary activity)"
+			}
+		case srcName == "fmt.Errorf" && wrapsOnly(e.Ctx, src, ro.ErrNonExist.Name()):
+			kind = "not-watched"
+			ok = errIsExcludes(e.Cond, e, func(k string) bool { return strings.HasSuffix(k, ro.ErrNonExist.Name()) })
+			wit = "ErrNonExistentWatch from the clean-up, excluded"
+			if !ok {
+				wit = "ErrNonExistentWatch from the clean-up is forwarded (the watch was already removed: ordinary activity)"
+			}
+		case srcName == "golang.org/x/sys/unix.InotifyAddWatch":
+			kind = "inotify_add_watch"
+			g, _ := e.Cond.everyConj(func(c Conj) bool {
+				return c.has(func(l Lit) bool { return l.A.Kind == AkBool && !l.Neg && strings.HasSuffix(l.A.Subj, ".recurse") })
+			})
+			ok = g
+			wit = "failed registration of a new directory (recursive mode only)"
+			if !g {
+				wit = "a registration failure is reported outside recursive mode"
+			}
+		default:
+			wit = "argument can be " + tail(stripIDs(e.Ctx.path(e.V)), 120)
 		}
-		var kinds []string
-		ok := true
-		var why []string
-		for _, o := range org {
-			switch {
-			case o == "nil":
-			case o == "call:golang.org/x/sys/unix.InotifyRmWatch" || strings.HasPrefix(o, "extract:") && strings.Contains(o, "InotifyRmWatch("):
-				kinds = append(kinds, "inotify_rm_watch")
-				ev, _ := unixConst(a, "EINVAL")
-				if !excl("unix.EINVAL") && !excl(einval) && !excl(sprintf("c:%d", ev)) {
-					ok = false
-					why = append(why, "an inotify_rm_watch failure is forwarded without excluding EINVAL (the kernel had already dropped the watch: ordinary activity)")
-				}
-			case o == "call:fmt.Errorf" || o == "call:errors.New":
-				kinds = append(kinds, "constructed")
-				ok = false
-				why = append(why, "a freshly constructed error (no %w) is reported from the event path: it hides its cause from errors.Is, so the filters for benign outcomes cannot apply")
-			case o == "wraps:"+ro.ErrNonExist.Name():
-				kinds = append(kinds, "removal-error")
-				if !excl(ro.ErrNonExist.Name()) {
-					ok = false
-					why = append(why, "ErrNonExistentWatch from the clean-up is forwarded (the watch was already removed: ordinary activity)")
-				}
-			case o == "call:golang.org/x/sys/unix.InotifyAddWatch" || strings.HasPrefix(o, "extract:") && strings.Contains(o, "InotifyAddWatch("):
-				kinds = append(kinds, "inotify_add_watch")
-				g, _ := s.cond.everyConj(func(c Conj) bool {
-					return c.has(func(l Lit) bool { return l.A.Kind == AkBool && !l.Neg && strings.HasSuffix(l.A.Subj, ".recurse") })
-				})
-				if !g {
-					ok = false
-					why = append(why, "a registration failure is reported outside recursive mode")
-				}
-			default:
-				ok = false
-				why = append(why, "unexpected origin "+o)
-				kinds = append(kinds, "other")
+		key := sprintf("error-send@%s(%s)", where, kind)
+		if seen[key] && ok {
+			continue
+		}
+		seen[key] = true
+		a.R.ob("C10.1", key, "a value is put on Errors only for a genuine failure; benign outcomes of clean-up syscalls (ErrNonExistentWatch, EINVAL) and the Close-induced read error are filtered", pos, ok, wit)
+	}
+	a.R.fact("error-send in %s: %d source(s), %d non-nil", where, len(edges), nonNil)
+	_ = site
+}
+
+func isIOEOF(v ssa.Value) bool {
+	if u, ok := v.(*ssa.UnOp); ok {
+		if g, ok := u.X.(*ssa.Global); ok {
+			return g.Name() == "EOF" && g.Pkg != nil && g.Pkg.Pkg.Path() == "io"
+		}
+	}
+	return false
+}
+
+// wrapsOnly: the fmt.Errorf call has %w operands and all of them originate from the named global.
+func wrapsOnly(c *Ctx, call *ssa.Call, global string) bool {
+	ws := wrappedOperands(c, call)
+	if len(ws) == 0 {
+		return false
+	}
+	for _, w := range ws {
+		for _, o := range origins(c, w, 0) {
+			if o != global {
+				return false
 			}
 		}
-		wit := "origins " + strings.Join(org, "|") + " on an edge conditioned on " + stripIDs(s.cond.String())
-		if !ok {
-			wit = strings.Join(uniq(why), "; ") + " || " + wit
-		}
-		a.R.ob("C10.1", "handler-error("+strings.Join(uniq(kinds), "+")+")", "an error the handler hands to the reader for Errors is a genuine failure: benign outcomes of clean-up syscalls (ErrNonExistentWatch, EINVAL) are filtered",
-			a.P.pos(df.Handler.Pos()), ok, wit)
 	}
-	a.R.fact("handler error result: %d source(s), %d non-nil", len(srcs), nNonNil)
+	return true
 }
